@@ -544,6 +544,10 @@ Definition run (tag : Z) (args : list Z) : list Z :=
   | 71, _ => [1]
   | 72, l => run_ctor l
   | 75, _ => [1]
+  | 80, _ => ANY
+  | 81, _ => ANY
+  | 82, _ => ANY
+  | 83, _ => ANY
   | _, _ => BAD
   end.
 
@@ -583,6 +587,10 @@ Definition spec (tag : Z) (args : list Z) : list Z :=
   | 71, _ => [-11]
   | 72, l => spec_ctor l
   | 75, _ => [1]
+  | 80, _ => repeat 1 11
+  | 81, _ => repeat 1 6
+  | 82, _ => repeat 1 10
+  | 83, _ => repeat 1 5
   | _, _ => BAD
   end.
 
@@ -611,11 +619,14 @@ Definition zlist_match (impl sp : list Z) : bool :=
 
 Definition case := (Z * list Z * list Z)%type.     (* tag, args, implementation output *)
 
+Definition model_ok (t : Z) (a o : list Z) : bool :=
+  match run t a with [-8] => true | m => zlist_eqb m o end.      (* [-8]: no executable model (real-valued) *)
+
 Definition mismatches (cs : list case) : list case :=
   filter (fun c => let '(t, a, o) := c in
-                   negb (zlist_eqb (run t a) o && zlist_match o (spec t a))) cs.
+                   negb (model_ok t a o && zlist_match o (spec t a))) cs.
 
 (* model only: used where the implementation is known to disagree with the
    specification on some cases (KNOWN_FINDINGS.txt) *)
 Definition model_mismatches (cs : list case) : list case :=
-  filter (fun c => let '(t, a, o) := c in negb (zlist_eqb (run t a) o)) cs.
+  filter (fun c => let '(t, a, o) := c in negb (model_ok t a o)) cs.
